@@ -3,6 +3,8 @@
 
   c07.run    <f s | r r0> <ops: string of n/r, `-` = none>  =>  <count> <result>*
   c07.hist   <start> <goroutines>  =>  <count> (<g> <n|r> <before> <after> <result>)*
+  c07.synth / c07.synthbad   as c07.hist, on synthesized histories (self-test of the checker:
+             linearizable by construction must be accepted, corrupted ones rejected)
   c07.facts  sequencer.go  =>  <6 bools> <maxInitialRandomSequenceNumber>
 
   c06.hist   <mtu> <pt> <ssrc> <ts0> <seqStart> <payloader name> <n> op*  =>  <n> opobs*
@@ -70,6 +72,12 @@ def c07hist : Handler := fun inp obs =>
     some { corr := true, pred := Pred.C07.linearizable (SeqState.newFixed s) h }
   | _, _ => none
 
+/-- self-test of the checker: corrupted histories must be rejected -/
+def c07histBad : Handler := fun inp obs =>
+  match c07hist inp obs with
+  | some v => some { v with pred := !v.pred }
+  | none => none
+
 def rdFacts : Rd Pred.C07.Facts := do
   let a ← Rd.bool; let b ← Rd.bool; let c ← Rd.bool; let d ← Rd.bool; let e ← Rd.bool; let f ← Rd.bool
   let m ← Rd.nat
@@ -132,5 +140,6 @@ def c06hist : Handler :=
     (fun (cfg, ops) => Pred.C06.wf cfg ops)
 
 def handlers : List (String × Handler) :=
-  [("c07.run", c07run), ("c07.hist", c07hist), ("c07.facts", c07facts), ("c06.hist", c06hist)]
+  [("c07.run", c07run), ("c07.hist", c07hist), ("c07.facts", c07facts), ("c07.synth", c07hist),
+   ("c07.synthbad", c07histBad), ("c06.hist", c06hist)]
 end Rtp.Kinds.Pktz
